@@ -56,6 +56,12 @@ func (v *Vue) evalInclude(ctx VueContext, node *html.Node, vars map[string]any, 
 	}
 	assignOnceIDs(name, compDom)
 
+	// Component shorthand tags work inside a component as they do in a page (the DOM was parsed for
+	// this include and is private to it)
+	if err := v.resolveComponentTags(compDom); err != nil {
+		return nil, fmt.Errorf("error in %s (included from %s): %w", name, ctx.FormatTemplateChain(), err)
+	}
+
 	// Validate and process template tag
 	processedDom, err := v.evalTemplate(ctx, compDom, ctx.stack.EnvMap(), depth+1)
 	if err != nil {
